@@ -157,7 +157,6 @@ void go_signed(Rng& rng)
 // which the driver then judges) are printed.
 #if defined(C18_SWEEP)
 inline volatile std::uint32_t sweep_x;
-inline volatile int sweep_fn;
 
 template<class T>
 void report(char const* name, T x)
@@ -194,19 +193,17 @@ inline unsigned long long sweep(std::uint64_t lo, std::uint64_t hi, unsigned s1,
     while (next <= hi) {
         int rc = sigsetjmp(jb, 1);
         if (rc != 0) {
+            armed = 0;
             // a trap inside the sweep: report the input through the per-case path and go on after it
             bad = bad + 1;
+            // and the remaining functions were not examined for this input: hand every function of this input
+            // to the per-case path (the driver judges the lines)
             std::uint32_t x = sweep_x;
-            int fn = sweep_fn;
             if (bump(restarts) <= 64) {
-                if (fn < 9)
-                    report(sweep_names[fn], x);
-                else if (fn == 9 || fn == 10) {
-                    rot(x, s1);
-                    rot(x, s2);
-                    rot(x, 0u);
-                    rot(x, 32u);
-                } else {
+                bits_unsigned(x);
+                bits_any(x);
+                for (unsigned s : {s1, s2, 0u, 32u}) rot(x, s);
+                {
                     std::int32_t v = std::int32_t(x);
                     auto x = v;
                     bits_any(x);
@@ -218,8 +215,8 @@ inline unsigned long long sweep(std::uint64_t lo, std::uint64_t hi, unsigned s1,
         for (std::uint64_t i = next; i <= hi; ++i) {
             std::uint32_t x = std::uint32_t(i);
             sweep_x = x;
+            armed = 1;  // traps raised by the code under test are expected here (vh.h rejects them elsewhere)
 #define SW(N, NAME, CNL, STD) \
-    sweep_fn = N; \
     if ((CNL) != (STD)) { \
         bad = bad + 1; \
         if (bump(restarts) <= 64) report(NAME, x); \
@@ -235,14 +232,12 @@ inline unsigned long long sweep(std::uint64_t lo, std::uint64_t hi, unsigned s1,
             }
             SW(7, "floor2", cnl::floor2(x), std::bit_floor(x))
             SW(8, "log2p1", cnl::log2p1(x), int(std::bit_width(x)))
-            sweep_fn = 9;
             for (unsigned s : {s1, s2, 0u, 32u}) {
                 if (cnl::rotl(x, s) != std::rotl(x, int(s % 32u)) || cnl::rotr(x, s) != std::rotr(x, int(s % 32u))) {
                     bad = bad + 1;
                     if (bump(restarts) <= 64) rot(x, s);
                 }
             }
-            sweep_fn = 11;
             {
                 std::int32_t v = std::int32_t(x);
                 std::uint32_t m = v < 0 ? ~x : x;  // value bits of the two's-complement form
@@ -259,6 +254,7 @@ inline unsigned long long sweep(std::uint64_t lo, std::uint64_t hi, unsigned s1,
             }
             calls = calls + 24;
         }
+        armed = 0;
         next = hi + 1;
     }
     printf("C18 sweep32 " CFG " %llu %llu %llu => %llu\n", (unsigned long long)lo, (unsigned long long)hi, (unsigned long long)calls, (unsigned long long)bad);
